@@ -12,44 +12,45 @@ import (
 
 // Profile steers the distribution of one campaign.
 type Profile struct {
-	Name            string
-	GenericPct      int // % of interfaces that are generic
-	MinDeps         int
-	MaxDeps         int
-	StdPct          int  // % chance that a named-type draw picks a std package
-	Conflict        bool // bias dependency paths towards colliding names
-	AdvNames        bool // adversarial parameter name pools
-	MaxIfaces       int
-	MaxMethods      int
-	MaxParams       int
-	MaxResults      int
-	MaxDepth        int
-	EmbedPct        int
-	AliasPct        int  // % chance a source import gets an alias
-	DestOther       int  // % other-package destination
-	DestTest        int  // % <src>_test destination
-	DestSame        int  // % explicit -pkg <src name>
-	OutFilePct      int  // % of cases using -out instead of stdout
-	ExecSafe        bool // harness X: shapes the reflective driver can build values for
-	InPlaceOnly     bool
-	FmtDefault      bool   // only the default formatter
-	MultiArgPct     int    // % of cases with >1 interface argument
-	UnnamedPct      int    // % of signatures with unnamed parameters
-	GopathPct       int    // % of worlds in GOPATH+vendor layout
-	ModPath         string // module-relative import path prefix of the world (default example.com/w, own go.mod)
-	SameAliasPct    int    // % of aliased imports that reuse an alias another file gave to a DIFFERENT package
-	LiteralAliasPct int    // % of non-generic interfaces declared as alias of an interface literal
-	NoDotBlank      bool   // no dot / blank imports in the source files
-	UniqueAliases   bool   // never use one alias for two different paths (known finding F-K, harness F)
-	ShadowPct       int    // % of signatures in which earlier parameters are named like the packages a later parameter type mentions
-	Evolve          bool   // also render a second version of the source (first requested literal interface gains a method)
-	MultiRefPct     int    // % bias towards dependency interfaces whose one method type mentions several same-named packages
+	Name             string
+	GenericPct       int // % of interfaces that are generic
+	MinDeps          int
+	MaxDeps          int
+	StdPct           int  // % chance that a named-type draw picks a std package
+	Conflict         bool // bias dependency paths towards colliding names
+	AdvNames         bool // adversarial parameter name pools
+	MaxIfaces        int
+	MaxMethods       int
+	MaxParams        int
+	MaxResults       int
+	MaxDepth         int
+	EmbedPct         int
+	AliasPct         int  // % chance a source import gets an alias
+	DestOther        int  // % other-package destination
+	DestTest         int  // % <src>_test destination
+	DestSame         int  // % explicit -pkg <src name>
+	OutFilePct       int  // % of cases using -out instead of stdout
+	ExecSafe         bool // harness X: shapes the reflective driver can build values for
+	InPlaceOnly      bool
+	FmtDefault       bool   // only the default formatter
+	MultiArgPct      int    // % of cases with >1 interface argument
+	UnnamedPct       int    // % of signatures with unnamed parameters
+	GopathPct        int    // % of worlds in GOPATH+vendor layout
+	ModPath          string // module-relative import path prefix of the world (default example.com/w, own go.mod)
+	MockLikeParamPct int    // chance (per argument) of a mock type named like a parameter of the interface
+	SameAliasPct     int    // % of aliased imports that reuse an alias another file gave to a DIFFERENT package
+	LiteralAliasPct  int    // % of non-generic interfaces declared as alias of an interface literal
+	NoDotBlank       bool   // no dot / blank imports in the source files
+	UniqueAliases    bool   // never use one alias for two different paths (known finding F-K, harness F)
+	ShadowPct        int    // % of signatures in which earlier parameters are named like the packages a later parameter type mentions
+	Evolve           bool   // also render a second version of the source (first requested literal interface gains a method)
+	MultiRefPct      int    // % bias towards dependency interfaces whose one method type mentions several same-named packages
 }
 
 func DefaultProfile() Profile {
 	return Profile{Name: "default", GenericPct: 20, MinDeps: 0, MaxDeps: 4, StdPct: 40, MaxIfaces: 3, MaxMethods: 4, MaxParams: 4,
 		MaxResults: 3, MaxDepth: 3, EmbedPct: 25, AliasPct: 25, DestOther: 25, DestTest: 10, DestSame: 8, OutFilePct: 10,
-		MultiArgPct: 30, UnnamedPct: 40, LiteralAliasPct: 7}
+		MultiArgPct: 30, UnnamedPct: 40, LiteralAliasPct: 7, MockLikeParamPct: 4}
 }
 
 // G is one generation run.
@@ -375,7 +376,7 @@ func (g *G) genDepDecls(p *Pkg) {
 	i1.Src = fmt.Sprintf("type %s interface {\n\t%s(x int) error\n}", i1.Name, m1)
 	extra := g.Int(0, 6)
 	for k := 0; k < extra; k++ {
-		shape := g.Int(0, 16)
+		shape := g.Int(0, 18)
 		if g.Chance(g.P.MultiRefPct) {
 			shape = 14
 		}
@@ -416,6 +417,18 @@ func (g *G) genDepDecls(p *Pkg) {
 				d.Src = fmt.Sprintf("type %s interface {\n\t%s() (x chan struct {\n\t\tA %s\n\t\tB %s\n\t}, y [2]%s)\n}", d.Name, ma, parts[0], parts[1], parts[len(parts)-1])
 			}
 			g.label("dep:multi-ref-iface")
+		case 17, 18: // defined (non-interface) type whose underlying type mentions another package: only its NAME is printed
+			var other *Pkg
+			if len(g.deps) > 0 && g.Chance(60) {
+				other = g.deps[g.Int(0, len(g.deps)-1)]
+			} else {
+				other = StdPkg(g.Pick([]string{"io", "context", "time", "net/http", "text/template"}))
+			}
+			od := other.Decls[0]
+			d := add(&Decl{Name: fresh(), Uses: []*Pkg{other}})
+			q := fmt.Sprintf("%%Q{%s}%s", other.Path, od.Name)
+			d.Src = fmt.Sprintf(g.Pick([]string{"type %[1]s func(%[2]s) error", "type %[1]s func(string) (%[2]s, error)", "type %[1]s struct {\n\tF %[2]s\n}", "type %[1]s map[string]%[2]s", "type %[1]s []%[2]s", "type %[1]s chan %[2]s"}), d.Name, q)
+			g.label("dep:defined-type-over-other-pkg")
 		case 0:
 			d := add(&Decl{Name: fresh()})
 			d.Src = fmt.Sprintf("type %s struct {\n\tB []byte\n\tM map[string]int\n}", d.Name)
@@ -949,6 +962,55 @@ func (g *G) sig(depth int, inner bool) *Sig {
 		}
 		if len(pkgs) >= 2 && j >= 2 {
 			g.label("param:shadows-two-later-imports")
+		}
+	}
+	if named && !inner && np >= 2 && !g.Open["F-F"] && g.Chance(5) {
+		// two parameters whose record fields collide (id / Id -> ID) and, half of the time, the first numbered
+		// name already taken by a third one (Id2)
+		i := g.Int(0, np-2)
+		j := g.Int(i+1, np-1)
+		base := s.Params[i].Name
+		if base != "" && base != "_" && s.Params[j].Name != "_" {
+			v := UpperFirst(base)
+			if v == base {
+				v = LowerFirst(base)
+			}
+			if v != base && g.okParamName(v, used, map[string]bool{}) {
+				delete(used, s.Params[j].Name)
+				s.Params[j].Name = v
+				used[v] = true
+				g.label("param:case-fold-dup")
+				if np >= 3 && g.Chance(50) {
+					k := g.Int(0, np-1)
+					if k != i && k != j && s.Params[k].Name != "_" && g.okParamName(v+"2", used, map[string]bool{}) {
+						delete(used, s.Params[k].Name)
+						s.Params[k].Name = v + "2"
+						used[v+"2"] = true
+						g.label("param:case-fold-dup-numbered-taken")
+					}
+				}
+				fold = map[string]bool{}
+				for _, p := range s.Params {
+					fold[foldKey(p.Name)] = true
+				}
+			}
+		}
+	}
+	if named && !inner && np >= 1 && !g.Open["F-E"] && !used["panic"] && g.Chance(3) {
+		// a parameter named panic which could be called like the builtin
+		i := g.Int(0, np-1)
+		if s.Params[i].Name != "_" {
+			delete(used, s.Params[i].Name)
+			s.Params[i].Name = "panic"
+			used["panic"] = true
+			arg := Param{T: basic(g.Pick([]string{"string", "any", "interface{}"}), true)}
+			fs := &Sig{Params: []Param{arg}}
+			if g.Chance(30) {
+				fs.Params[0].T = &Ty{K: KSlice, Elem: basic("any", true)}
+				fs.Variadic = true
+			}
+			s.Params[i].T = &Ty{K: KFunc, Sig: fs}
+			g.label("param:panic-callable")
 		}
 	}
 	if named {
@@ -1774,6 +1836,24 @@ func (g *G) Case() *core.Case {
 	cfg.Stub = g.Chance(40)
 	cfg.SkipEnsure = g.Chance(35)
 	cfg.WithResets = g.Chance(40)
+	// the flag package accepts several spellings of a boolean flag; an explicit false is "without the flag"
+	for _, bf := range []struct {
+		name string
+		v    bool
+	}{{"stub", cfg.Stub}, {"skip-ensure", cfg.SkipEnsure}, {"with-resets", cfg.WithResets}} {
+		if !g.Chance(10) {
+			continue
+		}
+		forms := []string{"-%s=false", "-%s=0", "--%s=false", "-%s=F"}
+		if bf.v {
+			forms = []string{"-%s=true", "--%s", "-%s=1", "--%s=T"}
+		}
+		if cfg.BoolForm == nil {
+			cfg.BoolForm = map[string]string{}
+		}
+		cfg.BoolForm[bf.name] = fmt.Sprintf(g.Pick(forms), bf.name)
+		g.label(fmt.Sprintf("flag:explicit-%v", bf.v))
+	}
 	// destination
 	k := g.Int(0, 99)
 	switch {
@@ -1892,6 +1972,38 @@ func (g *G) Case() *core.Case {
 			}
 			arg = it.Name + ":" + mock
 			g.label("arg:alias")
+		}
+		if !g.inPlace && !usedMock[it.Name] && g.Chance(8) {
+			// in another package the mock may be called like the interface itself
+			mock = it.Name
+			arg = it.Name + ":" + mock
+			g.label("arg:mock-named-like-interface")
+		} else if g.Chance(g.P.MockLikeParamPct) {
+			// a mock type called like one of the parameters of the interface's methods
+			var names []string
+			fileScope := map[string]bool{} // a package-level type may not be named like an import of any source file
+			for _, f := range g.files {
+				for p, a := range f.Imports {
+					fileScope[a] = true
+					fileScope[p.Name] = true
+				}
+			}
+			for _, m := range it.Methods {
+				if m.Sig == nil {
+					continue
+				}
+				for _, p := range append(append([]Param{}, m.Sig.Params...), m.Sig.Results...) {
+					n := p.Name
+					if n != "" && n != "_" && !usedMock[n] && !fileScope[n] && !g.topNames[n] && !g.declNames[n] && !Predeclared[n] && !IsKeyword(n) && n != "mock" && n != "callInfo" {
+						names = append(names, n)
+					}
+				}
+			}
+			if len(names) > 0 {
+				mock = names[g.Int(0, len(names)-1)]
+				arg = it.Name + ":" + mock
+				g.label("arg:mock-named-like-param")
+			}
 		}
 		usedMock[mock] = true
 		cfg.Args = append(cfg.Args, arg)
